@@ -2,13 +2,15 @@
 
     Transcribed from
       liquid2/utils/chainmap.py:14-51   ReadOnlyChainMap
-      liquid2/context.py:62-103          RenderContext.__init__ (the scope chain)
-      liquid2/context.py:105-112         RenderContext.assign
-      liquid2/context.py:186-193         RenderContext.resolve (and the root lookup of get/get_async)
-      liquid2/context.py:311-333         RenderContext.extend
-      liquid2/context.py:335-386         RenderContext.copy (the non-block-scope branch, used by {% render %})
-      liquid2/context.py:449-459         increment / decrement
-      liquid2/context.py:462-482         BuiltIn
+      liquid2/context.py:63-110          RenderContext.__init__ (the scope chain, root_globals)
+      liquid2/context.py:112-119         RenderContext.assign
+      liquid2/context.py:193-200         RenderContext.resolve (and the root lookup of get/get_async)
+      liquid2/context.py:318-340         RenderContext.extend
+      liquid2/context.py:342-393         RenderContext.copy (the non-block-scope branch, used by {% render %})
+      liquid2/context.py:458-468         increment / decrement
+      liquid2/context.py:471-491         BuiltIn
+    (line numbers of /repo at commit 919a310, i.e. after the fix 0967af6 that
+    made copy() chain the ROOT context's globals)
       liquid2/template.py:50-66,78-89,104-136,172-178   Template.__init__, render, render_with_context, make_globals
       liquid2/environment.py:98,137-155,224-232         Environment.__init__ (globals), from_string, make_globals
       liquid2/loader.py:79-94            BaseLoader.load (matter -> overlay_data)
@@ -174,22 +176,25 @@ Record state := {
   scope : chain;          (* self.scope *)
   locals_a : addr;        (* self.locals *)
   counters_a : addr;      (* self.counters *)
-  globals_r : mref        (* self.globals *)
+  globals_r : mref;       (* self.globals *)
+  root_r : mref           (* self.root_globals *)
 }.
 
 Definition with_store (st : state) (s : store) : state :=
   {| store_of := s; scope := scope st; locals_a := locals_a st;
-     counters_a := counters_a st; globals_r := globals_r st |}.
+     counters_a := counters_a st; globals_r := globals_r st; root_r := root_r st |}.
 
 Definition with_scope (st : state) (c : chain) : state :=
   {| store_of := store_of st; scope := c; locals_a := locals_a st;
-     counters_a := counters_a st; globals_r := globals_r st |}.
+     counters_a := counters_a st; globals_r := globals_r st; root_r := root_r st |}.
 
-(** context.py:73-88
+(** context.py:74-95
       self.globals = global_data or {}          (a chain map of total length 0 is falsy)
+      self.root_globals = parent.root_globals if parent else self.globals
       self.locals = {} ; self.counters = {}
-      self.scope = ReadOnlyChainMap(self.locals, self.globals, builtin, self.counters) *)
-Definition ctx_init (s : store) (g : mref) : state :=
+      self.scope = ReadOnlyChainMap(self.locals, self.globals, builtin, self.counters)
+    [parent_root] is [Some parent.root_globals] when there is a parent. *)
+Definition ctx_init (s : store) (g : mref) (parent_root : option mref) : state :=
   let '(s0, g') :=
     if Nat.eqb (mlen s g) 0
     then (let '(s', a) := alloc s [] in (s', RDict a))
@@ -197,7 +202,8 @@ Definition ctx_init (s : store) (g : mref) : state :=
   let '(s1, l) := alloc s0 [] in
   let '(s2, c) := alloc s1 [] in
   {| store_of := s2; scope := [RDict l; g'; RBuiltin; RDict c];
-     locals_a := l; counters_a := c; globals_r := g' |}.
+     locals_a := l; counters_a := c; globals_r := g';
+     root_r := match parent_root with Some r => r | None => g' end |}.
 
 (** context.py:186-193 resolve, and the root segment of get/get_async
     (:126-132): [self.scope[root]]; [None] = the Undefined result. *)
@@ -236,12 +242,13 @@ Definition st_push (st : state) (ns : dict) : state :=
   let '(s', a) := alloc (store_of st) ns in
   with_scope (with_store st s') (cm_push (scope st) (RDict a)).
 
-(** context.py:335-386, [block_scope=False] branch (the {% render %} tag):
-    a new context whose globals are ReadOnlyChainMap(namespace, self.globals).
+(** context.py:342-393, [block_scope=False] branch (the {% render %} tag):
+    a new context whose globals are ReadOnlyChainMap(namespace, self.root_globals)
+    and whose parent is [self].
     (The copy-depth test is C06/C07 material and not modelled.) *)
 Definition ctx_copy (st : state) (ns : dict) : state :=
   let '(s1, a) := alloc (store_of st) ns in
-  ctx_init s1 (RChain [RDict a; globals_r st]).
+  ctx_init s1 (RChain [RDict a; root_r st]) (Some (root_r st)).
 
 (** * Operations a render performs on the chain *)
 Inductive op :=
@@ -359,7 +366,7 @@ Definition build_base (w : world) : state :=
   let '(s3, gd') := or_empty s2 gd in
   let '(s4, ov) := or_empty s3 2 in
   let '(s5, g) := template_make_globals s4 gd' ov 3 in
-  ctx_init s5 g.
+  ctx_init s5 g None.
 
 (** template.py:104-136 render_with_context: [with context.extend(dict()): nodes]. *)
 Definition render (lim : nat) (w : world) (prog : list op) : state * list obs * res unit :=
